@@ -612,12 +612,16 @@ fn impl_object_for_struct(ast: &DeriveInput, fields: &Fields) -> SynStream {
                     let primitive: Option<pdf::primitive::Primitive>
                         = dict.remove(#key);
                     let x: #ty = match primitive {
-                        Some(primitive) => <#ty as pdf::object::Object>::from_primitive(primitive, resolve).map_err(|e|
-                            pdf::error::PdfError::FromPrimitive {
+                        Some(primitive) => match <#ty as pdf::object::Object>::from_primitive(primitive.clone(), resolve) {
+                            Ok(x) => x,
+                            // a reference to a missing object is null: the entry is absent
+                            Err(ref e) if pdf::object::is_missing_reference(&primitive, e) => #default,
+                            Err(e) => return Err(pdf::error::PdfError::FromPrimitive {
                                 typ: #typ,
                                 field: stringify!(#name),
                                 source: Box::new(e)
-                            })?,
+                            }),
+                        },
                         None => #default,
                     };
                     x
